@@ -242,6 +242,15 @@ func illTypedDefault(x *sg.Schema) bool {
 	if x.Ref != "" || len(x.AllOf) > 0 || len(x.AnyOf) > 0 || x.Ext != nil {
 		return true
 	}
+	if len(x.Types) == 0 && !x.HasEnum {
+		// no type: the field is interface{}; a scalar default is assignable, an array or object default becomes the
+		// invalid literal interface{}{...}
+		switch x.Default.(type) {
+		case []any, jsonx.Obj:
+			return true
+		}
+		return false
+	}
 	t, nullable, ok := x.NonNullType()
 	if x.HasEnum {
 		k := ""
@@ -634,6 +643,16 @@ func c01(ctx *Ctx) (*Outcome, error) {
 		}
 		g := sg.NewGen(r, o)
 		root := g.Root()
+		if i%25 == 11 {
+			rc := refDefaultCase(i / 25)
+			cases = append(cases, &c01Case{root: rc.Root, args: RandArgs(r, rc.Root), tag: "clean"})
+			continue
+		}
+		if i%25 == 12 {
+			sc := stringDefaultCase(i / 25)
+			cases = append(cases, &c01Case{root: sc.Root, args: RandArgs(r, sc.Root), tag: "clean"})
+			continue
+		}
 		if i%25 == 10 {
 			sc := suffixLookalikeCase(i / 25)
 			cases = append(cases, &c01Case{root: sc.Root, args: without(RandArgs(r, sc.Root), "--capitalization", true), tag: "clean"})
